@@ -61,7 +61,8 @@ API_CATALOGS = {
                      default_namespace='mindsdb'),
 }
 ALL_CATALOGS = dict(CATALOGS, **API_CATALOGS)
-TABLES_OF = {'int1': {'t1', 't2'}, 'int2': {'t1', 't3', 't4'}}       # = PLACES + the extra int2.t1 of DATA_TABLES
+TABLES_OF = {'int1': {'t1', 't2'}, 'int2': {'t1', 't3', 't4'},       # = PLACES + the extra int2.t1 of DATA_TABLES
+             'mindsdb': set()}                                       # the default namespace of most catalogs holds no table
 
 
 def integration_names(cat):
